@@ -20,8 +20,8 @@ def _variant(poly, h):
     closed = bool((h // 14) % 2)
     if closed:
         p = p + [p[0]]
-    tx, ty = [(0, 0), (-50, 30), (1000, -1000), (0.5, 0.25)][(h // 28) % 4]
-    sc = [1.0, 0.125, 64.0][(h // 112) % 3]
+    tx, ty = [(0, 0), (-50, 30), (1000, -1000), (0.5, 0.25), (500000, 6000000)][(h // 28) % 5]      # incl. projected-coordinate magnitudes
+    sc = [1.0, 0.125, 64.0][(h // 140) % 3] if tx < 1e5 else 1.0
     return p, {"rot": rot, "rev": rev, "closed": closed, "tx": tx, "ty": ty, "scale": sc}
 
 
@@ -77,10 +77,14 @@ def spec_to_code(ctx, gutils, Grid, cfg):
                 break
             if not (np.array_equal(pa, p0) and np.array_equal(pts, q0a)):
                 ctx.violation("points_inside_polygon:argument-modified", "inputs changed", {"poly": c["poly"]})
-        # cells_inside_polygon on the lattice grid (every 3rd polygon)
+        # cells_inside_polygon on the lattice grid (every 3rd polygon); the SAME grid object is moved and rescaled
+        # together with the polygon between queries (the set of cells must not change)
         if n % 3 == 0:
             try:
-                df = grid.cells_inside_polygon(np.array(c["poly"], dtype=float))
+                gtx, gty, gsc = [(0.0, 0.0, 1.0), (40.0, -8.0, 1.0), (0.0, 0.0, 0.5), (-3.0, 7.0, 4.0)][(n // 3) % 4]
+                grid.cellsize = np.float64(gsc)
+                grid.xllcorner, grid.yllcorner = np.float64((q0 - 0.5 + gtx) * gsc), np.float64((q0 - 0.5 + gty) * gsc)
+                df = grid.cells_inside_polygon((np.array(c["poly"], dtype=float) + [gtx, gty]) * gsc)
                 cells = set(int(v) for v in df["cell"].values)
             except Exception as e:
                 ctx.violation("cells_inside_polygon:exception", repr(e), {"poly": c["poly"]})
